@@ -33,7 +33,8 @@ def run(ctx, report):
     report.section("DFXP apos workaround", dfxp_apos, ctx, report)
     report.section("capture regex", capture, ctx, report, folder)
     report.section("WebVTT tags", webvtt_tags, ctx, report, folder)
-    report.section("breaks", breaks, ctx, report)
+    report.structural_section("breaks (shape)", "R-DOC-TEXT on the generated DFXP and SAMI documents (br = line break, in every position)",
+                              breaks, ctx, report)
     from . import reader_doc_fold, srt_doc_fold, dfxp_reader_fold
     report.section("generated DFXP documents", dfxp_reader_fold.run, ctx, report, {
         "cues": ("R-DOC-CUES", "1"), "text": ("R-DOC-TEXT", "1")})
@@ -213,7 +214,7 @@ def capture(ctx, report, folder):
 def webvtt_tags(ctx, report, folder):
     other = folder.value("pycaption.webvtt", "OTHER_SPAN_PATTERN")
     voice = folder.value("pycaption.webvtt", "VOICE_SPAN_PATTERN")
-    alpha = R.Alphabet(list("</>.: \tbcivulangrty0159xé"))
+    alpha = R.Alphabet(list("</>.: \t-bcivulangrty0159xé"))
     D = R.cset("0159")
     name = R.alt(*[R.lit(n) for n in ("c", "i", "b", "u", "v", "ruby", "rt", "lang")])
     any_ = R.cset(alpha.set - {">"})
@@ -231,10 +232,13 @@ def webvtt_tags(ctx, report, folder):
                  {"shortest_tag_kept": w2} if w2 is not None else None, "3")
     # voice pattern: <v[.class]* name>
     vl = R.lang_of_pattern(voice.pattern, alpha, "search", voice.flags)
-    vref = R.cat(R.lit("<v"), R.star(R.cat(R.lit("."), R.plus(R.cset("bcivulangrty0159xé")))), R.lit(" "), R.star(any_), R.lit(">"))
+    # (WebVTT: classes are '.' followed by characters other than white space, '.' and '>'; the annotation is separated by
+    # one or more blanks or tabs)
+    vref = R.cat(R.lit("<v"), R.star(R.cat(R.lit("."), R.plus(R.cset(alpha.set - set(" \t.>"))))), R.plus(R.cset(" \t")), R.star(any_),
+                 R.lit(">"))
     vr = R.Lang(R.cat(R.star(R.cset(alpha.set)), vref, R.star(R.cset(alpha.set))), alpha, "full")
     w3 = R.equal_witness(vl, vr)
-    report.check(w3 is None, "R-LANG-EQ", where, "VOICE_SPAN_PATTERN == '<v' ('.' class)* ' ' annotation '>'",
+    report.check(w3 is None, "R-LANG-EQ", where, "VOICE_SPAN_PATTERN == '<v' ('.' class)* (blank | tab)+ annotation '>'",
                  {"witness": w3} if w3 else None, "3")
     dec = ctx.index.get_function(VTT, "WebVTTReader._decode")
     from ..engines.strsteps import replace_steps
@@ -272,7 +276,7 @@ def breaks(ctx, report):
         for n in walk_no_nested(fn.node):
             if isinstance(n, ast.If) and src(n.test) == "tag.name == 'br'":
                 found = any(isinstance(c, ast.Call) and (call_name(c) or "").endswith("create_break") for c in walk_no_nested(n))
-        report.check(found, "R-COMPLETE-CASES", fn, "a br element becomes a BREAK node", None, "4")
+        report.recognise(found, "R-COMPLETE-CASES", fn, "a br element becomes a BREAK node", None, "4")
     md = ctx.index.get_function("pycaption/microdvd.py", "MicroDVDReader.read")
     t = closure_src(ctx.index, md)
     ok = ".split('|')" in t and "create_break()" in t and ".pop()" in t
